@@ -285,12 +285,15 @@ def run_unit(u):
     if not np.any(fd) or np.max(np.abs(d[fd])) > 1e-6:
         part.violation(PID, 'wavefront-error-zero', 'Wavefront', c, u, observed=float(np.nanmax(np.abs(d))) if np.any(fd) else 'nan',
                        expected=0.0, tol=1e-6)
-    psf = FFTPSF(o, (0.0, 0.0), w, num_rays=32, grid_size=128)
-    part.evals += 1
-    part.transitions += 1
-    sr = float(psf.strehl_ratio())
-    if not abs(sr - 1.0) <= 1e-9:
-        part.violation(PID, 'strehl-one', 'FFTPSF.strehl_ratio', c, u, observed=sr, expected=1.0, tol=1e-9)
+    # every parity of (pupil sampling, padded grid): the peak sample is read at the centre of the grid
+    for nr_, gs_ in ((32, 128), (32, 127), (33, 128), (33, 129)):
+        psf = FFTPSF(o, (0.0, 0.0), w, num_rays=nr_, grid_size=gs_)
+        part.evals += 1
+        part.transitions += 1
+        sr = float(psf.strehl_ratio())
+        if not abs(sr - 1.0) <= 1e-9:
+            part.violation(PID, 'strehl-one', 'FFTPSF.strehl_ratio', c + f",grid={'even' if gs_ % 2 == 0 else 'odd'}", dict(u, num_rays=nr_, grid_size=gs_),
+                           observed=sr, expected=1.0, tol=1e-9)
     part.outcome(u['fam'], [v for k_, v in sorted(u.items()) if isinstance(v, (int, float))], spread)
     part.sample(u)
     return part
